@@ -192,7 +192,9 @@ def tokens(events, me=None, owner=None):
                 ctx.pop()
             else:
                 st["unbalanced"] += 1
-        # uk (consumed by the X+ lookahead), hb he bb be: no label
+        elif t == "be":
+            toks.append("B")     # barrier() returned: the model requires "idle and no callback registered"
+        # uk (consumed by the X+ lookahead), hb he bb: no label
     return toks, st
 
 
